@@ -36,6 +36,10 @@ def stage_rule(ctx, run, res, rule, rows_atom, cols_atom, entry_fn):
             problems.append(f"{e['loc']}: autograd.grad differentiates w.r.t. {atoms_of_desc(e['inputs'])}, expected [{cols_atom}]")
         if isinstance(e["outputs"], dict) and isinstance(e["grad_outputs"], dict) and e["outputs"]["order"] != e["grad_outputs"]["order"]:
             problems.append(f"{e['loc']}: outputs are in order {e['outputs']['order']} but their cotangents in order {e['grad_outputs']['order']}")
+    for e in _pipe.evs(res, "dtype_cast"):
+        if e.get("to") in ("Default",) or str(e.get("to", "")).startswith("Fixed:"):
+            problems.append(f"{e['loc']}: `{e['text'][:70]}` converts a gradient / the Jacobian / the aggregated vector from its own dtype to {e['to']}: in a float64 program the deposited update is "
+                            "computed from values rounded to that dtype (and the aggregator sees a matrix of another dtype than the parameters)")
     if len(agg) != 1:
         problems.append(f"the aggregator is applied {len(agg)} times on this path (expected exactly once, to the united Jacobian)")
     if not gw:
@@ -108,6 +112,59 @@ def single_pass_rule(ctx, index, rule, entry_fn):
             ctx.violated(rule, f"{entry_fn.short}: parameter `{a.arg}` traversed before being materialised", verdict[1], entry_fn.loc(verdict[0]))
         else:
             ctx.ok(rule, f"{entry_fn.short}: parameter `{a.arg}` ({ann})", "materialised before any traversal" if state == "materialised" else "never traversed raw", entry_fn.loc())
+
+
+def unfiltered_rule(ctx, index, rule, entry_fn):
+    """The requested collections reach the pipeline whole: an Iterable parameter of the entry point is never re-bound to a selection of itself
+    (a comprehension over it with a condition, a difference / intersection with another collection), directly or through a helper it is handed to."""
+    from ..index import FunctionInfo
+
+    fn = entry_fn.node
+
+    def selection(e, name):
+        """The expression selects a part of the collection `name`."""
+        if isinstance(e, (ast.SetComp, ast.ListComp, ast.GeneratorExp)) and any(isinstance(g.iter, ast.Name) and g.iter.id == name and g.ifs for g in e.generators):
+            return f"`{norm_text(e)[:80]}` keeps only the elements for which `{norm_text(next(i for g in e.generators for i in g.ifs))[:50]}` holds"
+        if isinstance(e, ast.Call) and norm_text(e.func) in ("set", "list", "tuple", "frozenset") and e.args:
+            return selection(e.args[0], name)
+        if isinstance(e, ast.BinOp) and isinstance(e.op, (ast.Sub, ast.BitAnd)) and isinstance(e.left, ast.Name) and e.left.id == name:
+            return f"`{norm_text(e)[:80]}` removes elements"
+        if isinstance(e, ast.Call) and isinstance(e.func, ast.Attribute) and e.func.attr in ("difference", "intersection") and isinstance(e.func.value, ast.Name) and e.func.value.id == name:
+            return f"`{norm_text(e)[:80]}` removes elements"
+        if isinstance(e, ast.Call) and norm_text(e.func) == "filter" and len(e.args) == 2 and isinstance(e.args[1], ast.Name) and e.args[1].id == name:
+            return f"`{norm_text(e)[:80]}` keeps only some elements"
+        return None
+
+    for a in fn.args.args:
+        ann = ast.unparse(a.annotation) if a.annotation is not None else ""
+        if "Iterable" not in ann:
+            continue
+        name = a.arg
+        bad = None
+        for st in ast.walk(fn):
+            if isinstance(st, ast.Assign) and len(st.targets) == 1 and isinstance(st.targets[0], ast.Name) and st.targets[0].id == name:
+                why = selection(st.value, name)
+                if why:
+                    bad = (st, why)
+                v = st.value
+                if isinstance(v, ast.Call) and isinstance(v.func, ast.Name):
+                    cal = index.resolve_name(entry_fn.module, v.func.id)
+                    if isinstance(cal, FunctionInfo):
+                        params = [x.arg for x in cal.node.args.args]
+                        for i, arg in enumerate(v.args):
+                            if isinstance(arg, ast.Name) and arg.id == name and i < len(params):
+                                for r_ in ast.walk(cal.node):
+                                    if isinstance(r_, ast.Return) and r_.value is not None:
+                                        w2 = selection(r_.value, params[i])
+                                        if w2:
+                                            bad = (st, f"{cal.short} returns a part of it: {w2}")
+            if isinstance(st, ast.Expr) and isinstance(st.value, ast.Call) and isinstance(st.value.func, ast.Attribute) and isinstance(st.value.func.value, ast.Name) \
+                    and st.value.func.value.id == name and st.value.func.attr in ("difference_update", "intersection_update", "discard", "remove", "pop"):
+                bad = (st, f"`{norm_text(st)[:80]}` removes elements")
+        ctx.require(bad is None, rule, f"{entry_fn.short}: every requested element of `{name}` reaches the pipeline" if bad is None else f"{entry_fn.short}: requested elements of `{name}` are dropped",
+                    "the parameter is never re-bound to a selection of itself",
+                    (f"`{norm_text(bad[0])[:90]}`: {bad[1]} — the dropped tensors were requested by the caller and their .grad is neither created nor updated") if bad else "",
+                    entry_fn.loc(bad[0]) if bad else entry_fn.loc())
 
 
 def _scan_param(index, fi, name, nested, depth):
